@@ -1,6 +1,7 @@
 import Brax.Lemmas.C06Pos
 import Brax.Lemmas.C04Real
 import Brax.Lemmas.C06Q
+import Brax.Lemmas.C06Solver
 /-!
 # C06 — contacts and joint limits are inert until reached; contacts only push
 
@@ -781,5 +782,277 @@ example (jd : Motion ℝ) (qd tau : ℝ) :
 /-- beyond the range the generalized limit row is NOT zero (the iff is not vacuous) -/
 example : ¬ InRange (3 / 2 : ℝ) (some (-1)) (some 1) := by
   intro h; have := h.2 1 rfl; norm_num at this
+
+end Brax.C06
+
+/-! ## deepening: the constraint solver is MODELLED — no hypothesis about it remains
+
+`Brax/Model/C06Solver.lean` transcribes what `jaxopt.ProjectedGradient(objective, projection_non_negative,
+maxiter=sys.solver_iterations, implicit_diff=False, maxls=sys.solver_maxls).run(zeros_like(b)).params` computes
+(FISTA with backtracking line search, `objective(x) = Σ ½ (a x + b)²`; tied to the real library by
+`harness/corr_C06_solver.py` on every run: equal iteration counts, 1e-9 on the result).  `pgSolve a b maxiter tol eps maxls`
+replaces the parameter `solver a b` of `force`.  The theorems hold for EVERY `a`, `b` (any shapes, not only
+symmetric positive definite), iteration bound, tolerance, `eps`, line-search bound and any `sqrt`. -/
+namespace Brax.C06
+open Brax MC C04L C06L
+
+section solver
+variable {K : Type} [Field K] [LinearOrder K] [IsStrictOrderedRing K] [HasPow K] [HasSqrt K]
+
+/-- **The solver returns `x ≥ 0`**: every entry of the returned vector is nonnegative.  (The returned point
+is the initial `zeros` when `maxiter = 0`, otherwise the last line-search candidate, which is an output of
+`projection_non_negative = relu` — whether or not the sufficient-decrease test succeeded and whichever way the
+stopping rule `error > tol` went.) -/
+theorem pgSolve_nonneg (a : List (List K)) (b : List K) (maxiter : Nat) (tol eps : K) (maxls : Nat) :
+    ∀ v ∈ pgSolve a b maxiter tol eps maxls, 0 ≤ v :=
+  C06L.pgSolve_nonneg a b maxiter tol eps maxls
+
+/-- one multiplier per constraint row -/
+theorem pgSolve_length (a : List (List K)) (b : List K) (maxiter : Nat) (tol eps : K) (maxls : Nat) :
+    (pgSolve a b maxiter tol eps maxls).length = b.length :=
+  C06L.pgSolve_length a b maxiter tol eps maxls
+
+/-- **Inactive ⇒ the multipliers are exactly zero.**  If the gradient of the objective at the initial point `0`
+(`residual(0) @ a`; `= b @ a = aᵀ b` when `a` has a row per entry of `b`: `solver_gradient_at_zero`) is `≥ 0`
+componentwise, the solver returns exactly `0`, for every iteration bound, tolerance, `eps`, line-search bound.
+NOTE the hypothesis is `aᵀ b ≥ 0`, not `b ≥ 0`: brax minimises `½‖a x + b‖²` over `x ≥ 0` (least squares), not
+the complementarity problem `0 ≤ x ⊥ a x + b ≥ 0`; for one row the two agree (`a₁₁ b₁ ≥ 0 ⇔ b₁ ≥ 0` when
+`a₁₁ > 0`), for coupled rows they differ (see `notes/C06-deepen-solver.md`). -/
+theorem pgSolve_zero_of_inactive (a : List (List K)) (b : List K) (maxiter : Nat) (tol eps : K)
+    (maxls : Nat) (hg : ∀ v ∈ grad a b (List.replicate b.length 0), 0 ≤ v) :
+    pgSolve a b maxiter tol eps maxls = List.replicate b.length 0 :=
+  pgSolve_zero_of_grad_nonneg a b maxiter tol eps maxls hg
+
+/-- the gradient at `0` in matrix form: `b @ a` (entry `j` is `Σ_i b_i a_ij`) -/
+theorem solver_gradient_at_zero (a : List (List K)) (b : List K) (h : b.length ≤ a.length) :
+    grad a b (List.replicate b.length 0) = vecMat b.length b a :=
+  grad_zero_eq a b h
+
+/-- `b = 0` ⇒ the solver returns `0` (whatever `a` is) -/
+theorem pgSolve_zero_of_b_zero (a : List (List K)) (b : List K) (maxiter : Nat) (tol eps : K)
+    (maxls : Nat) (hb : ∀ e ∈ b, e = 0) :
+    pgSolve a b maxiter tol eps maxls = List.replicate b.length 0 :=
+  C06L.pgSolve_zero_of_b_zero a b maxiter tol eps maxls hb
+
+/-- `constraint.force` with the modelled solver: the multipliers that `con_jac.T @ ·` is applied to are `≥ 0`,
+one per row — no assumption about the solver -/
+theorem force_solved_multipliers (nv : Nat) (jac : List (List K)) (diag aref : List K)
+    (minv : List (List K)) (qfs : List K) (maxiter : Nat) (tol eps : K) (maxls : Nat)
+    (hne : jac ≠ []) :
+    ∃ x : List K, x.length = jac.length ∧ (∀ v ∈ x, 0 ≤ v)
+      ∧ force (fun a b => pgSolve a b maxiter tol eps maxls) nv jac diag aref minv qfs = jacTx nv jac x := by
+  refine ⟨pgSolve (forceAb nv jac diag aref minv qfs).1 (forceAb nv jac diag aref minv qfs).2
+    maxiter tol eps maxls, ?_, C06L.pgSolve_nonneg _ _ _ _ _ _, ?_⟩
+  · rw [C06L.pgSolve_length]
+    unfold forceAb
+    exact tab_length _ _
+  · unfold force
+    rw [if_neg (by simpa using hne)]
+
+/-- **Contacts only push (generalized), with the solver modelled.**  `jacobian` puts the four pyramid rows of
+contact `i` at positions `4i … 4i+3` (contact rows first, four per candidate); the four multipliers the modelled
+solver returns there give a contact force `F = Σ_k x_k · dir_k` on the second body whose normal component is
+`n · F = Σ_k x_k ≥ 0`.  `pyramid_push_only` without its hypothesis `x ≥ 0`. -/
+theorem contacts_only_push_solved (c : GContact K) (a : List (List K)) (b : List K) (maxiter : Nat)
+    (tol eps : K) (maxls : Nat) (i : Nat) (hi : 4 * i + 4 ≤ b.length)
+    (hn : V3.dot c.frame.r0 c.frame.r0 = 1) (h1 : V3.dot c.frame.r0 c.frame.r1 = 0)
+    (h2 : V3.dot c.frame.r0 c.frame.r2 = 0) :
+    V3.dot c.frame.r0 (pyramidForce c (((pgSolve a b maxiter tol eps maxls).drop (4 * i)).take 4))
+        = (((pgSolve a b maxiter tol eps maxls).drop (4 * i)).take 4).sum
+    ∧ 0 ≤ V3.dot c.frame.r0
+        (pyramidForce c (((pgSolve a b maxiter tol eps maxls).drop (4 * i)).take 4)) := by
+  apply pyramid_push_only c _ _ _ hn h1 h2
+  · intro v hv
+    exact C06L.pgSolve_nonneg a b maxiter tol eps maxls v
+      (List.mem_of_mem_drop (List.mem_of_mem_take hv))
+  · rw [List.length_take, List.length_drop, C06L.pgSolve_length]
+    omega
+
+/-- the contact block of `jacobian` has exactly four rows per candidate (so contact `i` owns rows `4i … 4i+3`) -/
+theorem jacContact_rows (s : Sys K) (com : List (V3 K)) (cdof : List (Motion K)) (qd : List K)
+    (cs : List (GContact K)) : (jacContact s com cdof qd cs).1.length = 4 * cs.length := by
+  unfold jacContact
+  simp only [List.length_map]
+  induction cs with
+  | nil => rfl
+  | cons c cs ih =>
+    rw [List.flatMap_cons, List.length_append, ih]
+    simp [contactRows, contactDirs]
+    omega
+
+/-- **Inert, with the solver modelled: the multipliers themselves vanish.**  Limits unreached and contacts
+separated ⇒ the `b` handed to the solver is `0` and the modelled solver returns exactly `0` (so `qf_constraint = Jᵀ0`;
+`constraint_force_inert` showed `Jᵀx = 0` for whatever `x`). -/
+theorem inert_multipliers_zero (s : Sys K) (sp : List (SolverParams K)) (com : List (V3 K))
+    (cdof : List (Motion K)) (q qd : List K) (cs : List (GContact K)) (minv : List (List K))
+    (qfs : List K) (maxiter : Nat) (tol eps : K) (maxls : Nat)
+    (hl : AllInRange s q) (hc : ∀ c ∈ cs, ¬ c.dist < 0) :
+    pgSolve
+      (forceAb s.nv (jacobian s sp com cdof q qd cs).1 (jacobian s sp com cdof q qd cs).2.1
+        (jacobian s sp com cdof q qd cs).2.2 minv qfs).1
+      (forceAb s.nv (jacobian s sp com cdof q qd cs).1 (jacobian s sp com cdof q qd cs).2.1
+        (jacobian s sp com cdof q qd cs).2.2 minv qfs).2 maxiter tol eps maxls
+      = List.replicate (jacobian s sp com cdof q qd cs).1.length 0 := by
+  have hb := forceAb_b_zero s.nv (jacobian s sp com cdof q qd cs).1 (jacobian s sp com cdof q qd cs).2.1
+    (jacobian s sp com cdof q qd cs).2.2 minv qfs (jacobian_inactive s sp com cdof q qd cs hl hc)
+    (by
+      intro e he
+      unfold jacobian at he
+      simp only [List.mem_append] at he
+      rcases he with h | h
+      · exact (jacContact_inactive s com cdof qd cs hc).2.2 e h
+      · exact (jacLimit_inactive s sp q qd hl).2.2 e h)
+  rw [C06L.pgSolve_zero_of_b_zero _ _ _ _ _ _ hb]
+  congr 1
+  unfold forceAb
+  exact tab_length _ _
+
+/-- `constraint_force_inert` with the modelled solver on both sides -/
+theorem constraint_force_inert_solved (s : Sys K) (sp : List (SolverParams K)) (com : List (V3 K))
+    (cdof : List (Motion K)) (q qd : List K) (cs : List (GContact K)) (minv : List (List K))
+    (qfs : List K) (maxiter : Nat) (tol eps : K) (maxls : Nat)
+    (hl : AllInRange s q) (hc : ∀ c ∈ cs, ¬ c.dist < 0) :
+    force (fun a b => pgSolve a b maxiter tol eps maxls) s.nv (jacobian s sp com cdof q qd cs).1
+        (jacobian s sp com cdof q qd cs).2.1 (jacobian s sp com cdof q qd cs).2.2 minv qfs
+      = force (fun a b => pgSolve a b maxiter tol eps maxls) s.nv [] [] [] minv qfs :=
+  constraint_force_inert _ _ s sp com cdof q qd cs minv qfs hl hc
+
+end solver
+
+/-! ### non-vacuity of the solver theorems -/
+section solverExamples
+variable {K : Type} [Field K] [LinearOrder K] [IsStrictOrderedRing K] [HasSqrt K]
+
+theorem solver_example_lsLoop (eps : K) (he : 0 ≤ eps) (maxls : Nat) :
+    lsLoop [[1]] [-1] [0] (objective [[1]] [-1] [0]) (grad [[1]] [-1] [0]) eps maxls ([1], 1)
+      = ([(1 : K)], 1) := by
+  cases maxls with
+  | zero => rfl
+  | succ n =>
+    unfold lsLoop
+    have : lsCond [[1]] [-1] [0] (objective [[1]] [-1] [0]) (grad [[1]] [-1] [0]) eps ([(1 : K)], 1)
+        = false := by
+      simp [lsCond, objective, C06.residual, grad, vecMat, tab, dotL, vsub, sqNorm, List.range_succ]
+      norm_num
+      linarith
+    rw [this]; rfl
+
+/-- **the solver is not the zero function**: one active row `a = [[1]]`, `b = [−1]` (the unconstrained
+acceleration violates the constraint by 1), one iteration: the multiplier is exactly `1 > 0`, the solution of
+`a x + b = 0` (for every tolerance, line-search bound and `eps ≥ 0`) -/
+theorem solver_example_active (tol eps : K) (he : 0 ≤ eps) (maxls : Nat) :
+    pgSolve [[1]] [-1] 1 tol eps maxls = [(1 : K)] := by
+  have hp : proxGrad [0] (grad [[1]] [-1] [0]) (1.0 : K) = [(1 : K)] := by
+    simp [proxGrad, grad, C06.residual, vecMat, tab, dotL, relu, maxv, List.range_succ]
+    norm_num
+  simp only [pgSolve, pgRun, update, lineSearch, initState, List.length_cons, List.length_nil]
+  simp only [Nat.reduceAdd, List.replicate, one_ne_zero, if_false]
+  rw [hp]
+  have h1 : (1.0 : K) = 1 := by norm_num
+  rw [h1, solver_example_lsLoop eps he maxls]
+  rfl
+
+/-- the hypothesis of `pgSolve_zero_of_inactive` is satisfiable with `b ≠ 0`: `a = [[1]]`, `b = [1]` (the row
+is active but the unconstrained acceleration already satisfies it): the multiplier is `0` -/
+example (maxiter : Nat) (tol eps : K) (maxls : Nat) :
+    pgSolve [[1]] [(1 : K)] maxiter tol eps maxls = [0] := by
+  have := pgSolve_zero_of_grad_nonneg [[1]] [(1 : K)] maxiter tol eps maxls (by
+    intro v hv
+    simp [grad, C06.residual, vecMat, tab, dotL, List.range_succ] at hv
+    rw [hv]; norm_num)
+  simpa using this
+
+/-- `contacts_only_push_solved` has satisfiable hypotheses: the frame `(z, x, y)`, a 4-row problem -/
+example (c : GContact ℝ) (hf : c.frame = ⟨⟨0, 0, 1⟩, ⟨1, 0, 0⟩, ⟨0, 1, 0⟩⟩) (a : List (List ℝ))
+    (b0 b1 b2 b3 : ℝ) (maxiter : Nat) (tol eps : ℝ) (maxls : Nat) :
+    0 ≤ V3.dot c.frame.r0
+      (pyramidForce c (((pgSolve a [b0, b1, b2, b3] maxiter tol eps maxls).drop (4 * 0)).take 4)) :=
+  (contacts_only_push_solved c a [b0, b1, b2, b3] maxiter tol eps maxls 0 (by simp)
+    (by rw [hf]; simp [V3.dot]) (by rw [hf]; simp [V3.dot]) (by rw [hf]; simp [V3.dot])).2
+
+end solverExamples
+
+end Brax.C06
+
+/-! ### sharpness of `pgSolve_zero_of_inactive`: `aᵀ b ≥ 0` cannot be weakened to `b ≥ 0` -/
+namespace Brax.C06
+open Brax MC C04L C06L
+
+section solverCoupled
+variable {K : Type} [Field K] [LinearOrder K] [IsStrictOrderedRing K] [HasSqrt K]
+
+/-- two coupled rows: `a` symmetric positive definite -/
+def exCoupledA : List (List K) := [[1, -9 / 10], [-9 / 10, 1]]
+/-- `b ≥ 0`: with zero multipliers every row already has `a x + b ≥ 0` -/
+def exCoupledB : List K := [1, 1 / 10]
+
+theorem exCoupled_grad : grad (exCoupledA (K := K)) exCoupledB [0, 0] = [91 / 100, -4 / 5] := by
+  simp [exCoupledA, exCoupledB, grad, C06.residual, vecMat, tab, dotL, List.range_succ]
+  norm_num
+
+theorem exCoupled_obj0 : objective (exCoupledA (K := K)) exCoupledB [0, 0] = 101 / 200 := by
+  simp [exCoupledA, exCoupledB, objective, C06.residual, dotL]
+  norm_num
+
+theorem exCoupled_prox1 : proxGrad [0, 0] [91 / 100, -4 / 5] (1 : K) = [0, 4 / 5] := by
+  simp [proxGrad, relu, maxv]
+  norm_num
+
+theorem exCoupled_prox2 : proxGrad [0, 0] [91 / 100, -4 / 5] ((1 : K) * 0.5) = [0, 2 / 5] := by
+  simp [proxGrad, relu, maxv]
+  norm_num
+
+theorem exCoupled_cond1 (eps : K) (h : eps < 1 / 4) :
+    lsCond (exCoupledA (K := K)) exCoupledB [0, 0] (101 / 200) [91 / 100, -4 / 5] eps ([0, 4 / 5], 1)
+      = true := by
+  simp [lsCond, exCoupledA, exCoupledB, objective, C06.residual, dotL, vsub, sqNorm]
+  norm_num
+  linarith
+
+theorem exCoupled_cond2 (eps : K) (h : 0 ≤ eps) :
+    lsCond (exCoupledA (K := K)) exCoupledB [0, 0] (101 / 200) [91 / 100, -4 / 5] eps
+      ([0, 2 / 5], 1 * 0.5) = false := by
+  simp [lsCond, exCoupledA, exCoupledB, objective, C06.residual, dotL, vsub, sqNorm]
+  norm_num
+  linarith
+
+theorem exCoupled_ls (eps : K) (h0 : 0 ≤ eps) (h : eps < 1 / 4) (maxls : Nat) :
+    (lsLoop (exCoupledA (K := K)) exCoupledB [0, 0] (101 / 200) [91 / 100, -4 / 5] eps maxls
+        ([0, 4 / 5], 1)).1
+      = (if maxls = 0 then [0, 4 / 5] else [0, 2 / 5]) := by
+  cases maxls with
+  | zero => rfl
+  | succ n =>
+    unfold lsLoop
+    rw [exCoupled_cond1 eps h]
+    simp only [if_true, lsBody, exCoupled_prox2]
+    cases n with
+    | zero => rfl
+    | succ m =>
+      unfold lsLoop
+      rw [exCoupled_cond2 eps h0]
+      simp
+
+/-- **brax's solver is least squares, not complementarity.**  `a = [[1, −9/10], [−9/10, 1]]` (symmetric positive
+definite), `b = [1, 1/10] ≥ 0` (the complementarity problem `0 ≤ x ⊥ a x + b ≥ 0` has the solution `x = 0`), one
+iteration: the modelled solver returns `[0, 2/5]` (`[0, 4/5]` without line search) — a positive multiplier on the second
+row, because `aᵀ b = [91/100, −4/5]` has a negative entry.  The real solver returns `[0, 0.4]`, `[0, 0.8]`, and
+`[0, 0.4422]` at convergence.  (The force still pushes: `pgSolve_nonneg`.) -/
+theorem solver_coupled_rows_force (tol eps : K) (h0 : 0 ≤ eps) (h : eps < 1 / 4) (maxls : Nat) :
+    pgSolve (exCoupledA (K := K)) exCoupledB 1 tol eps maxls
+      = (if maxls = 0 then [0, 4 / 5] else [0, 2 / 5]) := by
+  have h1 : (1.0 : K) = 1 := by norm_num
+  have hl : (exCoupledB (K := K)).length = 2 := rfl
+  simp only [pgSolve, pgRun, update, lineSearch, initState, hl]
+  simp only [one_ne_zero, if_false, List.replicate, Nat.sub_self, iterate]
+  rw [exCoupled_grad, exCoupled_obj0, h1, exCoupled_prox1, exCoupled_ls eps h0 h maxls]
+
+/-- … although `b ≥ 0` -/
+example : ∀ v ∈ (exCoupledB : List ℝ), 0 ≤ v := by
+  intro v hv
+  simp [exCoupledB] at hv
+  rcases hv with rfl | rfl <;> norm_num
+
+end solverCoupled
 
 end Brax.C06
